@@ -3,9 +3,13 @@
    `C08 spec [head,decompress,maxBody] stream eof gz`     → `ok [code,…]` | `ok REJECT`
    `C08 raw  [head,decompress,maxBody] [seg,…] eof`       → `ok xRAW` | `ok ~`   (body handed to the decompressor)
    `C08 status <text>`                                    → `ok [version,code,reason]` | `ok REJECT`
+   `C08 pieces [head,decompress,maxBody] [seg,…] eof`     → `ok [[gz,xCHUNK],…]`   (the data_received calls of the fetch)
+   `C08 streamed [head,decompress,maxBody] [seg,…] eof tbl` → `ok [n,…]`   (lengths of the streaming_callback deliveries)
+   tbl = `[[call,…],…]`, one entry per non-empty chunk reaching the decompressor; call = `[n,more]` | `E`
    gz = `~` | `[xraw,xout,status]` (graph of the zlib oracle at one point) -/
 import TornadoModel.Base.Wire
 import TornadoModel.C08.Spec
+import TornadoModel.C08.Stream
 namespace TornadoModel.C08.Drv
 open TornadoModel TornadoModel.Wire TornadoModel.C06 TornadoModel.C08
 
@@ -31,6 +35,15 @@ def decZ (v : V) : Option (Bytes → GzRes) :=
       let st ← decStatus (← s.atom?)
       pure (fun x => if x = raw then ⟨out, st⟩ else ⟨[], .missing⟩)
     | _ => none
+
+def decCall (v : V) : Option ZCall :=
+  match v with
+  | .atom "E" => some .error
+  | .list [n, m] => do pure (.out (← n.nat?) (← m.bool?))
+  | _ => none
+
+def decTbl (v : V) : Option (List (List ZCall)) := do
+  (← v.list?).mapM (fun e => do (← e.list?).mapM decCall)
 
 def encKind : ErrKind → String
   | .closed => "closed"
@@ -64,6 +77,15 @@ def handle (toks : List String) : String :=
       match decCfg c, s.list? >>= (·.mapM V.byteNats?), e.bool? with
       | some cfg, some segs, some eof => ok [V.ofOpt V.ofByteNats (rawGzBody cfg segs eof)]
       | _, _, _ => err "bad-arg"
+    | [.atom "pieces", c, s, e] =>
+      match decCfg c, s.list? >>= (·.mapM V.byteNats?), e.bool? with
+      | some cfg, some segs, some eof =>
+        ok [.list ((pieces cfg segs eof).map (fun (g, p) => .list [V.ofBool g, V.ofByteNats p]))]
+      | _, _, _ => err "bad-arg"
+    | [.atom "streamed", c, s, e, t] =>
+      match decCfg c, s.list? >>= (·.mapM V.byteNats?), e.bool?, decTbl t with
+      | some cfg, some segs, some eof, some tbl => ok [.list ((streamed cfg segs eof tbl).map V.ofNat)]
+      | _, _, _, _ => err "bad-arg"
     | [.atom "status", t] =>
       match t.cps? with
       | some l =>
